@@ -1,5 +1,6 @@
 import LcmProofs.SimPanel
 import LcmProofs.Congr
+import LcmProofs.OnGrid
 import LcmProps.Examples
 namespace Lcm
 
@@ -59,8 +60,9 @@ theorem C06_on_grid_value_unrestricted_partial (m : Model) (P : Params) (t : Nat
     (dIdx xIdx : List Nat)
     (hd : InBounds (sizes (groups m).dS) dIdx) (hx : InBounds (sizes (cStateGrids (groups m))) xIdx)
     (states : List (List (Name × Rat))) (i : Nat) (hi : i < states.length)
-    (hEnv : ∀ e y, EnvEq (toEnv (states.getD i [] ++ [] ++ e ++ y))
-      (toEnv (pickAt (groups m).dS dIdx ++ e ++ pickAt (cStateGrids (groups m)) xIdx) ++ toEnv y)) :
+    (hEnv : ∀ e y, e ∈ assignments (groups m).dC → y ∈ assignments (groups m).cC →
+      EnvEq (toEnv (states.getD i [] ++ [] ++ e ++ y))
+        (toEnv (pickAt (groups m).dS dIdx ++ e ++ pickAt (cStateGrids (groups m)) xIdx) ++ toEnv y)) :
     (agentDecision m P (groups m) t (simNext m P (solve m P true) t) states i).value
       = ((solve m P true).getD t default).get (dIdx ++ xIdx) := by
   have hsC : (groups m).sC = [] := by
@@ -70,17 +72,16 @@ theorem C06_on_grid_value_unrestricted_partial (m : Model) (P : Params) (t : Nat
   have hR2 := (agentDecision_spec m P (groups m) t (simNext m P (solve m P true) t) states i hi).2.1
   have hR1 := solve_entry_isMax_unrestricted m P t ht hdense dIdx xIdx hd hx
   simp only at hR1
-  have hobj : ∀ e y, agentObj m P (groups m) t (simNext m P (solve m P true) t) (states.getD i []) [] e y
-      = objAtDense m P (groups m) t (nextOf m P (solve m P true) t) dIdx xIdx e y := by
-    intro e y
+  have hobj : ∀ e y, e ∈ assignments (groups m).dC → y ∈ assignments (groups m).cC →
+      agentObj m P (groups m) t (simNext m P (solve m P true) t) (states.getD i []) [] e y
+        = objAtDense m P (groups m) t (nextOf m P (solve m P true) t) dIdx xIdx e y := by
+    intro e y he hy
     unfold agentObj objAtDense
-    exact uAndF_congr_env m P (groups m) t _ _ _ (hEnv e y)
-  -- the simulated maximum ranges over ([], e, y); re-index to (e, y)
+    exact uAndF_congr_env m P (groups m) t _ _ _ (hEnv e y he hy)
   have hfilt : ∀ c, agentFilt m P (groups m) t (states.getD i []) c = true := by
     intro c; simp [agentFilt, hsC]
   have hmem : ∀ c : List (Name × Rat), c ∈ assignments (groups m).sC ↔ c = [] := by
     intro c; rw [hsC]; simp [assignments]
-  -- transport R2 along x ↦ ([], x)
   have hR2' : IsMaxOver
       (fun x : List (Name × Rat) × List (Name × Rat) =>
         x.1 ∈ assignments (groups m).dC ∧ (x.2 ∈ assignments (groups m).cC ∧
@@ -90,19 +91,94 @@ theorem C06_on_grid_value_unrestricted_partial (m : Model) (P : Params) (t : Nat
     obtain ⟨hub, hatt⟩ := hR2
     constructor
     · intro x hx
-      have := hub ([], x) ⟨⟨(hmem []).mpr rfl, hfilt []⟩, hx.1, hx.2.1, by rw [hobj]; exact hx.2.2⟩
-      simpa only [hobj] using this
+      have := hub ([], x) ⟨⟨(hmem []).mpr rfl, hfilt []⟩, hx.1, hx.2.1, by rw [hobj _ _ hx.1 hx.2.1]; exact hx.2.2⟩
+      simpa only [hobj _ _ hx.1 hx.2.1] using this
     · rcases hatt with ⟨x, hx, hv⟩ | ⟨hnone, hv⟩
       · left
         have hx1 : x.1 = [] := (hmem x.1).mp hx.1.1
         refine ⟨x.2, ⟨hx.2.1, hx.2.2.1, ?_⟩, ?_⟩
-        · have := hx.2.2.2; rw [hx1, hobj] at this; exact this
+        · have := hx.2.2.2; rw [hx1, hobj _ _ hx.2.1 hx.2.2.1] at this; exact this
         · rw [hv]
           show Ext.fin (valueOf (agentObj m P (groups m) t (simNext m P (solve m P true) t) (states.getD i []) x.1 x.2.1 x.2.2)) = _
-          rw [hx1, hobj]
+          rw [hx1, hobj _ _ hx.2.1 hx.2.2.1]
       · right
-        refine ⟨fun x hx => hnone ([], x) ⟨⟨(hmem []).mpr rfl, hfilt []⟩, hx.1, hx.2.1, by rw [hobj]; exact hx.2.2⟩, hv⟩
+        refine ⟨fun x hx => hnone ([], x) ⟨⟨(hmem []).mpr rfl, hfilt []⟩, hx.1, hx.2.1, by rw [hobj _ _ hx.1 hx.2.1]; exact hx.2.2⟩, hv⟩
   exact hR2'.unique hR1
+
+/-- (a) at full strength, models without filter-restricted variables -/
+theorem C06_on_grid_value_unrestricted (m : Model) (P : Params) (t : Nat) (ht : t < m.nPeriods)
+    (hdense : (!((groups m).sS.isEmpty && (groups m).sC.isEmpty)) = false)
+    (dIdx xIdx : List Nat)
+    (hd : InBounds (sizes (groups m).dS) dIdx) (hx : InBounds (sizes (cStateGrids (groups m))) xIdx)
+    (states : List (List (Name × Rat))) (i : Nat) (hi : i < states.length)
+    (hnames : (allNames (groups m)).Nodup)
+    (hst : (states.getD i []).Perm (pickAt (groups m).dS dIdx ++ pickAt (cStateGrids (groups m)) xIdx)) :
+    (agentDecision m P (groups m) t (simNext m P (solve m P true) t) states i).value
+      = ((solve m P true).getD t default).get (dIdx ++ xIdx) := by
+  have hdl : dIdx.length = (groups m).dS.length := by rw [inBounds_length _ _ hd, sizes_length]
+  have hxl : xIdx.length = (cStateGrids (groups m)).length := by rw [inBounds_length _ _ hx, sizes_length]
+  have hemp : ((groups m).sS.isEmpty && (groups m).sC.isEmpty) = true := by simpa using hdense
+  simp only [Bool.and_eq_true, List.isEmpty_iff] at hemp
+  apply C06_on_grid_value_unrestricted_partial m P t ht hdense dIdx xIdx hd hx states i hi
+  intro e y he hy
+  have := env_on_grid (groups m) hnames (states.getD i []) [] [] e y dIdx xIdx
+    (by rw [hemp.1]; simp [assignments]) (by rw [hemp.2]; simp [assignments]) he hy hdl hxl (by simpa using hst)
+  have h0 : toEnv ([] : List (Name × Rat)) = [] := rfl
+  simpa [h0] using this
+
+/-- **(a) at full strength, models with filter-restricted variables**: if the variable names are pairwise
+distinct (which `Model` enforces: dict keys, no name used as state and choice) and agent `i`'s period-`t` state
+is - as a set of (name, value) pairs - the grid state addressed by `(k, dIdx, xIdx)`, then the simulated value
+equals the entry of the solved array of period `t`. No further hypothesis: the environment equivalence is
+`env_on_grid`, "filters read restricted variables only" is `filt_on_grid` (frame property of by-name evaluation
++ the definition of *restricted* as "ancestor of a filter"). -/
+theorem C06_on_grid_value (m : Model) (P : Params) (t : Nat) (ht : t < m.nPeriods)
+    (hsparse : (!((groups m).sS.isEmpty && (groups m).sC.isEmpty)) = true)
+    (k : Nat) (hk : k < (feasOf m P t).length) (dIdx xIdx : List Nat)
+    (hd : InBounds (sizes (groups m).dS) dIdx) (hx : InBounds (sizes (cStateGrids (groups m))) xIdx)
+    (states : List (List (Name × Rat))) (i : Nat) (hi : i < states.length)
+    (hnames : (allNames (groups m)).Nodup)
+    (hst : (states.getD i []).Perm
+      ((feasOf m P t)[k] ++ pickAt (groups m).dS dIdx ++ pickAt (cStateGrids (groups m)) xIdx)) :
+    (agentDecision m P (groups m) t (simNext m P (solve m P true) t) states i).value
+      = ((solve m P true).getD t default).get (k :: (dIdx ++ xIdx)) := by
+  have hdl : dIdx.length = (groups m).dS.length := by rw [inBounds_length _ _ hd, sizes_length]
+  have hxl : xIdx.length = (cStateGrids (groups m)).length := by rw [inBounds_length _ _ hx, sizes_length]
+  have hsmem : (feasOf m P t)[k] ∈ feasOf m P t := List.getElem_mem hk
+  have hs : (feasOf m P t)[k] ∈ assignments (groups m).sS := List.mem_of_mem_filter hsmem
+  have hR2 := (agentDecision_spec m P (groups m) t (simNext m P (solve m P true) t) states i hi).2.1
+  have hR1 := solve_entry_isMax_restricted m P t ht hsparse k hk dIdx xIdx hd hx
+  simp only at hR1
+  have hobj : ∀ c e y, c ∈ assignments (groups m).sC → e ∈ assignments (groups m).dC → y ∈ assignments (groups m).cC →
+      agentObj m P (groups m) t (simNext m P (solve m P true) t) (states.getD i []) c e y
+        = objAt m P (groups m) t (nextOf m P (solve m P true) t) ((feasOf m P t)[k]) dIdx xIdx c e y := by
+    intro c e y hc he hy
+    unfold agentObj objAt
+    exact uAndF_congr_env m P (groups m) t _ _ _
+      (env_on_grid (groups m) hnames _ _ c e y dIdx xIdx hs hc he hy hdl hxl hst)
+  have hfilt : ∀ c, c ∈ assignments (groups m).sC →
+      agentFilt m P (groups m) t (states.getD i []) c = spaceFilt m P t ((feasOf m P t)[k]) c := by
+    intro c hc
+    by_cases hsC : (groups m).sC.isEmpty = true
+    · -- no restricted choice: the data space applies no filter; the grid state is feasible by construction
+      have hnil : (groups m).sC = [] := List.isEmpty_iff.mp hsC
+      have hc0 : c = [] := by rw [hnil] at hc; simpa [assignments] using hc
+      have hany : (assignments (groups m).sC).any (spaceFilt m P t ((feasOf m P t)[k])) = true :=
+        (List.mem_filter.mp hsmem).2
+      rw [hnil] at hany
+      have : spaceFilt m P t ((feasOf m P t)[k]) [] = true := by simpa [assignments] using hany
+      rw [hc0, this]
+      simp [agentFilt, hnil]
+    · exact filt_on_grid m P t hnames _ _ c dIdx xIdx hs hc hdl hxl hst (by simpa using hsC)
+  refine (hR2.congr ?_ ?_).unique hR1
+  · intro x
+    constructor
+    · rintro ⟨⟨h1, h2⟩, h3, h4, h5⟩
+      exact ⟨⟨h1, by rw [← hfilt _ h1]; exact h2⟩, h3, h4, by rw [← hobj _ _ _ h1 h3 h4]; exact h5⟩
+    · rintro ⟨⟨h1, h2⟩, h3, h4, h5⟩
+      exact ⟨⟨h1, by rw [hfilt _ h1]; exact h2⟩, h3, h4, by rw [hobj _ _ _ h1 h3 h4]; exact h5⟩
+  · rintro x ⟨⟨h1, _⟩, h3, h4, _⟩
+    simp only [hobj _ _ _ h1 h3 h4]
 
 -- non-vacuity / pinned: on the F1 witness the simulated values in period 0 are the array entries V0[1], V0[2]
 #guard ((solveAndSimulate Ex.f1Model Ex.f1Params [[("s", 1)], [("s", 2)]] (fun _ _ _ _ => 0)).getD 0 []).map (·.value)
